@@ -152,6 +152,8 @@ def exhaustive_cases(tier):
     out = []
     for name, alpha, nq, nt, fixes in EXHAUSTIVE:
         nmax = nq if tier == 'quick' else nt
+        if name == 'front' and not I.front_in_memory():
+            continue            # 16 k scratch files: left to the layout tie
         if not I.available(name):
             if name != 'to_float':
                 continue        # counted in prepare_exhaustive
@@ -811,6 +813,7 @@ def run(res, tier, seed, proofs_ok):
     del I.HANGS[:]
     I.SKIPPED.clear()
     I._AVAILABLE.clear()
+    I.FRONT_VIA_FILE[0] = None
     # line coverage is information only: nothing in it may fail the check
     cov, cov_missing_names = _NoCov(), []
     try:
